@@ -21,6 +21,7 @@ package builder
 //@ decreases width
 
 //@ func (data/builder.hashBits).Slice
+//@ prop C18
 //@ domain in-range: 1 <= width && width <= 62 && 0 <= offset && offset <= (1 << 40)
 //@ ensures err == nil ==> isBits(result, hb, offset, width)
 //@ ensures err == nil <==> offset + width <= len(hb)*8
@@ -149,6 +150,15 @@ package builder
 //@ ensures link-implies-stored: err == nil ==> result0 != nil && stored(result0)
 //@ ensures monotone: forall l Ref :: old(stored(l)) ==> stored(l)
 //@ inst monotone: l: l
+
+// C10: the estimate that decides between a plain and a sharded directory is a sum of one term per
+// entry (name length plus the byte length of that entry's own link), hence independent of the order
+// in which the entries are given.
+//@ spec def linkLenOf(l Ref) int = ite(typeis(l, "cidlink.Link"), cidLinkLen(l.(cidlink.Link).Cid), ite(l == nil, 0, len(linkBinary(l))))
+//@ func data/builder.estimateDirSize
+//@ prop C10
+//@ ensures one-term-per-entry: result == sum(k, 0, len(entries), len(entries[k].Name.v.x) + linkLenOf(entries[k].Hash.x))
+//@ loop 0 invariant running-estimate: s == sum(k, 0, rangeindex + 1, len(entries[k].Name.v.x) + linkLenOf(entries[k].Hash.x))
 
 // C11: the size returned for a plain directory is the encoded length of its block plus the sum of
 // its entries' Tsize, every entry counted (entries that share a target are counted once each).
